@@ -349,13 +349,18 @@ type fixture struct {
 	recvMsg        *channeltypes.MsgRecvPacket
 	absSeq         uint64
 	baseH, baseNow uint64
+	tag            string // "grid" for the equal-revision fixture, "xrev/v<r>/c<r>" for cross-revision fixtures
 }
 
 func newFixture(c *core.C) *fixture {
-	f := &fixture{}
-	f.coord = ibctesting.NewCoordinator(c.T, 2)
-	f.a = f.coord.GetChain(ibctesting.GetChainID(1))
-	f.b = f.coord.GetChain(ibctesting.GetChainID(2))
+	coord := ibctesting.NewCoordinator(c.T, 2)
+	return newFixtureOn(c, coord, coord.GetChain(ibctesting.GetChainID(1)), coord.GetChain(ibctesting.GetChainID(2)), "grid")
+}
+
+// newFixtureOn builds the fixture with a as the counterparty (proof source) and b as the verifying chain.
+// tag distinguishes the violation keys of different fixtures.
+func newFixtureOn(c *core.C, coord *ibctesting.Coordinator, a, b *ibctesting.TestChain, tag string) *fixture {
+	f := &fixture{coord: coord, a: a, b: b, tag: tag}
 	f.path = ibctesting.NewPath(f.a, f.b)
 	f.path.Setup()
 	f.app = f.b.GetSimApp()
@@ -433,6 +438,7 @@ func verdict(err error) string {
 }
 
 type gridCase struct {
+	Tag   string `json:"fixture,omitempty"`
 	Kind  string `json:"kind"` // grid
 	Via   string `json:"via"`
 	Delay uint64 `json:"delay"`
@@ -480,12 +486,13 @@ type bStats struct {
 }
 
 func (f *fixture) checkGrid(c *core.C, st *bStats, g gridCase, tag string) {
+	g.Tag = f.tag
 	want := refPassed(f.procT+g.DT, f.procT, g.Delay, f.procH+g.DH, f.procH, refBlockDelay(g.Delay, g.Max))
 	got, err := f.evalGrid(g)
 	st.evals++
 	c.Hist("b_grid_outcomes", got)
 	if g.Delay != 0 {
-		k := fmt.Sprintf("g/%d/%d/%d/%d", g.Delay, g.Max, g.DH, g.DT)
+		k := fmt.Sprintf("g/%s/%d/%d/%d/%d", f.tag, g.Delay, g.Max, g.DH, g.DT)
 		if !st.distinct[k] {
 			st.distinct[k] = true
 			st.nontrivial++
@@ -523,7 +530,7 @@ func runGrid(c *core.C, f *fixture, st *bStats) {
 			for _, dh := range dhs {
 				for _, dt := range dts {
 					for _, via := range gridVias {
-						f.checkGrid(c, st, gridCase{Kind: "grid", Via: via, Delay: d, Max: m, DH: dh, DT: dt}, "grid")
+						f.checkGrid(c, st, gridCase{Kind: "grid", Via: via, Delay: d, Max: m, DH: dh, DT: dt}, f.tag)
 					}
 				}
 			}
@@ -603,6 +610,7 @@ func runBlocks(c *core.C, f *fixture, st *bStats) {
 // directCase is one direct call of the tendermint light client module with harness-chosen
 // processed metadata, delays, block height and time.
 type directCase struct {
+	Tag    string `json:"fixture,omitempty"`
 	Kind   string `json:"kind"` // direct
 	Op     string `json:"op"`   // member | nonmember
 	ProcT  uint64 `json:"processed_time"`
@@ -628,11 +636,12 @@ func (f *fixture) evalDirect(d directCase) (string, error) {
 }
 
 func (f *fixture) checkDirect(c *core.C, st *bStats, capLeft map[string]int, d directCase) {
+	d.Tag = f.tag
 	want := refPassed(d.Now, d.ProcT, d.DelayT, d.H, d.ProcH, d.DelayB)
 	got, err := f.evalDirect(d)
 	st.evals++
 	c.Hist("b_direct_outcomes", got)
-	k := fmt.Sprintf("d/%d/%d/%d/%d/%d/%d", d.ProcT, d.DelayT, d.Now, d.ProcH, d.DelayB, d.H)
+	k := fmt.Sprintf("d/%s/%s/%d/%d/%d/%d/%d/%d", f.tag, d.Op, d.ProcT, d.DelayT, d.Now, d.ProcH, d.DelayB, d.H)
 	if (d.DelayT != 0 || d.DelayB != 0) && !st.distinct[k] {
 		st.distinct[k] = true
 		st.nontrivial++
@@ -663,7 +672,11 @@ func (f *fixture) checkDirect(c *core.C, st *bStats, capLeft map[string]int, d d
 		}
 		capLeft[ck]--
 	}
-	c.Violation(fmt.Sprintf("enforce/direct/%s/%s/pt=%d/dt=%d/now=%d/ph=%d/db=%d/h=%d", d.Op, class, d.ProcT, d.DelayT, d.Now, d.ProcH, d.DelayB, d.H),
+	pre := "enforce/direct"
+	if f.tag != "grid" {
+		pre = "enforce/" + f.tag + "/direct"
+	}
+	c.Violation(fmt.Sprintf(pre+"/%s/%s/pt=%d/dt=%d/now=%d/ph=%d/db=%d/h=%d", d.Op, class, d.ProcT, d.DelayT, d.Now, d.ProcH, d.DelayB, d.H),
 		fmt.Sprintf("07-tendermint %s verification with processedTime=%d delayTime=%d now=%d processedHeight=%d delayBlock=%d height=%d: %s, reference (no wrap-around) says accepted=%v", d.Op, d.ProcT, d.DelayT, d.Now, d.ProcH, d.DelayB, d.H, got, want), d)
 }
 
@@ -774,6 +787,53 @@ func runDirect(c *core.C, f *fixture, st *bStats) {
 	}
 }
 
+// runCrossRevision repeats the enforcement grid (and the direct cases) on real chain pairs whose chain ids carry
+// different revision numbers: verifying chain in revision rv, counterparty (proof heights) in revision rc.
+// processedHeight and the verifier's own height are in revision rv, proof heights in revision rc; the oracle is
+// unchanged: the block delay is counted on the verifying chain's own heights.
+func runCrossRevision(c *core.C, st *bStats) {
+	coord := ibctesting.NewCoordinator(c.T, 0)
+	mk := func(id string) *ibctesting.TestChain {
+		ch := ibctesting.NewTestChain(c.T, coord, id)
+		coord.Chains[id] = ch
+		return ch
+	}
+	revs := []uint64{1, 2, 3}
+	var ver, cp []*ibctesting.TestChain
+	for _, r := range revs {
+		ver = append(ver, mk(fmt.Sprintf("verifier-%d", r)))
+		cp = append(cp, mk(fmt.Sprintf("counterparty-%d", r)))
+	}
+	for vi, rv := range revs {
+		for ci, rc := range revs {
+			if c.TimeUp() {
+				return
+			}
+			f := newFixtureOn(c, coord, cp[ci], ver[vi], fmt.Sprintf("xrev/v%d/c%d", rv, rc))
+			if f == nil {
+				return
+			}
+			if f.rev != rv || f.proofHeight.GetRevisionNumber() != rc || clienttypes.GetSelfHeight(f.b.GetContext()).GetRevisionNumber() != rv {
+				c.Broken("cross-revision fixture has revisions self=%d proof=%s, wanted v=%d c=%d", f.rev, f.proofHeight, rv, rc)
+				return
+			}
+			for _, via := range gridVias {
+				g := gridCase{Kind: "grid", Via: via, Delay: 0, Max: 0, DH: f.baseH - f.procH, DT: f.baseNow - f.procT}
+				if got, err := f.evalGrid(g); got != "accepted" {
+					c.Broken("cross-revision fixture self-check v=%d c=%d: %s with zero delay: %s (%v)", rv, rc, via, got, err)
+					return
+				}
+			}
+			c.Hist("b_cross_revision_fixtures", fmt.Sprintf("verifier=%d/counterparty=%d", rv, rc))
+			runGrid(c, f, st)
+			if !c.Quick() || rv != rc {
+				runDirect(c, f, st)
+			}
+		}
+	}
+	c.Sample(map[string]any{"part": "B cross-revision", "verifier_chain_ids": []string{"verifier-1", "verifier-2", "verifier-3"}, "counterparty_chain_ids": []string{"counterparty-1", "counterparty-2", "counterparty-3"}})
+}
+
 func runPartB(c *core.C) (st bStats) {
 	st.distinct = map[string]bool{}
 	f := newFixture(c)
@@ -793,10 +853,24 @@ func runPartB(c *core.C) (st bStats) {
 	runE2EWrap(c, f, &st)
 	runDirect(c, f, &st)
 	runBlocks(c, f, &st)
+	runCrossRevision(c, &st)
 	return st
 }
 
 // ---------------------------------------------------------------------------------------
+
+// fixtureForTag rebuilds the fixture a recorded case was evaluated on.
+func fixtureForTag(c *core.C, tag string) *fixture {
+	var rv, rc uint64
+	if n, _ := fmt.Sscanf(tag, "xrev/v%d/c%d", &rv, &rc); n != 2 {
+		return newFixture(c)
+	}
+	coord := ibctesting.NewCoordinator(c.T, 0)
+	v := ibctesting.NewTestChain(c.T, coord, fmt.Sprintf("verifier-%d", rv))
+	cp := ibctesting.NewTestChain(c.T, coord, fmt.Sprintf("counterparty-%d", rc))
+	coord.Chains[v.ChainID], coord.Chains[cp.ChainID] = v, cp
+	return newFixtureOn(c, coord, cp, v, tag)
+}
 
 func replay(c *core.C) {
 	var kind struct {
@@ -820,8 +894,8 @@ func replay(c *core.C) {
 		var g gridCase
 		_ = c.LoadReplay(&g)
 		st := bStats{distinct: map[string]bool{}}
-		if f := newFixture(c); f != nil {
-			f.checkGrid(c, &st, g, "grid")
+		if f := fixtureForTag(c, g.Tag); f != nil {
+			f.checkGrid(c, &st, g, f.tag)
 		}
 		c.Set("evaluations", st.evals)
 		c.Sample(g)
@@ -829,7 +903,7 @@ func replay(c *core.C) {
 		var d directCase
 		_ = c.LoadReplay(&d)
 		st := bStats{distinct: map[string]bool{}}
-		if f := newFixture(c); f != nil {
+		if f := fixtureForTag(c, d.Tag); f != nil {
 			f.checkDirect(c, &st, map[string]int{d.Op + "/time-wrap": 1, d.Op + "/height-wrap": 1, d.Op + "/time+height-wrap": 1}, d)
 		}
 		c.Set("evaluations", st.evals)
@@ -851,7 +925,7 @@ func run(c *core.C) {
 	c.Set("a_evaluations", a.evals)
 	c.Set("b_evaluations", b.evals)
 	c.Set("rule", "A: every (delay, maxExpectedTimePerBlock) pair of the 64-bit boundary lattice squared (plus realistic durations; thorough: all 2^k-1,2^k,2^k+1,3*2^(k-1) and values around multiples of 2^53), observed through the four packet verification functions; non-trivial = distinct pairs with max>1 and delay not a multiple of max (the ceiling rounds up). "+
-		"B: real proof submitted at every (height,time) grid point >= the processed point for each (delay,max) through VerifyPacketCommitment, VerifyPacketReceiptAbsence and MsgRecvPacket, in real committed blocks, and directly through the 07-tendermint module with processed time/height and delays up to 2^64-1; non-trivial = distinct points with a non-zero delay")
+		"B: real proof submitted at every (height,time) grid point >= the processed point for each (delay,max) through VerifyPacketCommitment, VerifyPacketReceiptAbsence and MsgRecvPacket, in real committed blocks, directly through the 07-tendermint module with processed time/height and delays up to 2^64-1, and the same grid and direct cases again on nine real chain pairs whose chain ids put the verifying chain in revision 1..3 and the counterparty in revision 1..3; non-trivial = distinct points with a non-zero delay")
 	c.Assume("big.Int reference arithmetic is trusted")
 	c.Assume("block time and height never decrease, so proofs are only submitted at now >= processedTime and height >= processedHeight; block times are < 2^63 ns")
 	c.Assume("part A observes getBlockDelay only through the delayBlockPeriod argument handed to a recording light-client module registered with the real ClientKeeper.AddRoute")
